@@ -18,6 +18,7 @@ def run(tier, seed):
     # random lists of 4..12 rules over the whole space of valid cosmetic rules (TLC Randomization, seeded)
     _, rep_r = coscommon.mc_and_replay(v, wd, "rand", 300 if tier == "quick" else 3000, workers=12, extra=["-seed", str(seed)])
     vlib.require(rep_r["evaluations"] > 20000, "random cosmetic universe too small")
+    vlib.scale_stage(v, wd, "C16")
     return v.finish("model_checking", "lists of <= %d cosmetic rules from the 40-rule scoping pool x 13 page hosts; plus every cosmetic line of 14 location texts x 11 markers x 20 bodies (3080 lines), parsed by CosParse.tla and replayed as one-line lists" % k, exhaustive=True)
 
 
